@@ -747,8 +747,13 @@ def g_objnative(repo):
             fm = _re.search(r"OBJNATIVE first-failure ((C\d\d:objnative:[a-z0-9-]+): .*)", r.stdout)
             w = fm.group(1) if fm else "?"
             lab = fm.group(2) if fm else "C07:objnative"
+            probe = list(OBJ_PROBE)
+            cm = _re.search(r"OBJNATIVE cli-witness (.*)", r.stdout)
+            if cm:
+                # the first failing object that a Jsonnet program can build, as a self-checking program for the real binary
+                probe.insert(0, {"source": cm.group(1).strip(), "oracle": {"oracle": "stdout_equals", "value": "true\n"}})
             res["failed"].append({"obligation": "%s - %d of %d enumerated checks fail; first: %s" % (lab, fails, cases, w),
-                                  "site": "program/data.rs:objects", "file": LANG + "/program/data.rs", "line": 0, "fn": "get_fields_order", "probe": OBJ_PROBE,
+                                  "site": "program/data.rs:objects", "file": LANG + "/program/data.rs", "line": 0, "fn": "get_fields_order", "probe": probe,
                                   "native_witness": w, "failed_count": fails})
             res["obligations_failed_count"] = fails
         else:
